@@ -7,6 +7,7 @@
      T <wid> <level>                                       ... one line per thread (thread index = order, 0-based)
      P <t> <t> ...                                         ... one line per step: the threads that run their next phase
      E                                                     ... end of the schedule: run it
+     V <label> <hexaddr> <size>                            guard: an object (link-time address in this executable) that must never change
    H <phase> <phase> ...                                 the phase order of the specification (must equal the one compiled in here)
    Every thread runs the phases  init build link geninit gen call interp genfin finish  in this order on its own context
    (generation before interpretation: MIR_gen at -O2 of a function the interpreter has already executed crashes
@@ -21,6 +22,9 @@
      G <wid> <level> <phase> <text>                             the reference run failed in <phase>
      C <sid>                                                    references exist; the concurrent part begins
      O <sid> <rep> <tid> <i|c> <ret> ...                        concurrent observation that differs from the reference
+     Q <wid> <level> <hex>                                      c2mir's diagnostics of the reference compilation (if any)
+     D <sid> <rep> <tid> <hex>                                  diagnostics of a concurrent compilation that differ from the reference
+     M <sid> <alone|concurrent> <label> <offset> <old> <new>    a guarded object changed during this schedule
      F <sid> <rep> <tid> <phase> <text>                         MIR error callback / failure in a thread
      K <sid> <runs> <diffs>                                     schedule finished
    stderr: "@S <sid>" before each schedule (ThreadSanitizer reports that follow belong to it).
@@ -38,6 +42,7 @@
 #include <pthread.h>
 #include <time.h>
 #include <dlfcn.h>
+#include <link.h>
 #include "mir.h"
 #include "mir-gen.h"
 #ifdef C18_WITH_C2MIR
@@ -80,6 +85,7 @@ struct thr {
   int tid, wid, level;
   MIR_context_t ctx;
   int gen_on, c2m_on, failed, next_phase;
+  char *diag; /* what c2mir printed (errors and warnings) while this thread compiled */
   MIR_item_t entry;
   struct obs o[2]; /* 0: interp, 1: call */
   char fail_text[600];
@@ -196,6 +202,32 @@ static int same_obs (const struct obs *a, const struct obs *b) {
   return memcmp (a->log_id, b->log_id, sizeof (int64_t) * nl) == 0 && memcmp (a->log_v, b->log_v, sizeof (uint64_t) * nl) == 0;
 }
 
+static void print_hex (const char *s) {
+  for (; *s; s++) printf ("%02x", (unsigned char) *s);
+  printf ("\n");
+}
+
+/* ---- guarded statics: objects of the library that the specification says are never written.  Their bytes are recorded
+   before the first thread starts and compared whenever all threads of a run have been joined. */
+#define MAXGUARD 256
+static struct guard { char label[96]; unsigned char *addr, *snap; size_t size; } guards[MAXGUARD];
+static int nguards;
+static uintptr_t load_bias;
+static int phdr_cb (struct dl_phdr_info *info, size_t size, void *data) {
+  load_bias = info->dlpi_addr; /* the first entry is the executable itself */
+  return 1;
+}
+static void check_guards (long sid, const char *when) {
+  for (int i = 0; i < nguards; i++) {
+    struct guard *g = &guards[i];
+    if (memcmp (g->addr, g->snap, g->size) == 0) continue;
+    size_t off = 0;
+    while (g->addr[off] == g->snap[off]) off++;
+    printf ("M %ld %s %s %zu %02x %02x\n", sid, when, g->label, off, g->snap[off], g->addr[off]);
+    memcpy (g->snap, g->addr, g->size); /* report each modification once, at the run that made it */
+  }
+}
+
 static void print_obs (const struct obs *o) {
   int nl = o->nlog < MAXLOG ? o->nlog : MAXLOG;
   if (!o->valid) { printf ("none\n"); return; }
@@ -231,14 +263,19 @@ static void do_phase (struct thr *th, int ph) {
       struct str_in in;
       int ok;
       memset (&ops, 0, sizeof (ops));
-      ops.message_file = devnull;
-      ops.ignore_warnings_p = 1;
+      size_t dlen = 0;
+      FILE *mf;
+      free (th->diag);
+      th->diag = NULL;
+      mf = open_memstream (&th->diag, &dlen);
+      ops.message_file = mf;
       in.s = w->text; in.i = 0;
       c2mir_init (ctx);
       th->c2m_on = 1;
       ok = c2mir_compile (ctx, &ops, str_getc, &in, "c18-input.c", NULL);
       c2mir_finish (ctx);
       th->c2m_on = 0;
+      fclose (mf);
       if (!ok) {
         snprintf (th->fail_text, sizeof (th->fail_text), "c2mir_compile reported errors");
         th->failed = 1; th->fail_phase = ph;
@@ -333,12 +370,13 @@ static void *alone_main (void *arg) {
 
 static void reset_thr (struct thr *th) {
   free_obs (&th->o[0]); free_obs (&th->o[1]);
+  free (th->diag); th->diag = NULL;
   th->ctx = NULL; th->gen_on = th->c2m_on = th->failed = th->next_phase = 0;
   th->entry = NULL; th->fail_text[0] = 0; th->fail_phase = -1;
 }
 
 /* reference observations, cached per (workload, level) for the life of the process */
-struct refent { int wid, level, failed, fail_phase; char fail_text[600]; struct obs o[2]; };
+struct refent { int wid, level, failed, fail_phase; char fail_text[600]; struct obs o[2]; char *diag; };
 static struct refent **refs; /* entries are allocated one by one: callers keep pointers to them */
 static int nrefs, refs_cap;
 
@@ -356,6 +394,11 @@ static struct refent *reference (int wid, int level) {
   r->wid = wid; r->level = level; r->failed = t.failed; r->fail_phase = t.fail_phase;
   memcpy (r->fail_text, t.fail_text, sizeof (r->fail_text));
   r->o[0] = t.o[0]; r->o[1] = t.o[1];
+  r->diag = t.diag;
+  if (r->diag != NULL && r->diag[0] != 0) {
+    printf ("Q %d %d ", wid, level);
+    print_hex (r->diag);
+  }
   if (r->failed) printf ("G %d %d %s %s\n", wid, level, phase_name[r->fail_phase], r->fail_text);
   for (int k = 0; k < 2; k++) {
     printf ("R %d %d %c ", wid, level, "ic"[k]);
@@ -364,6 +407,8 @@ static struct refent *reference (int wid, int level) {
   fflush (stdout);
   return r;
 }
+
+static int same_diag (const char *a, const char *b) { return strcmp (a == NULL ? "" : a, b == NULL ? "" : b) == 0; }
 
 static long compare_rep (int rep, struct refent **ref) {
   long diffs = 0;
@@ -377,6 +422,11 @@ static long compare_rep (int rep, struct refent **ref) {
     if (th->next_phase != NPHASES) {
       diffs++;
       printf ("F %ld %d %d %s schedule left the thread after %d phases\n", sc.sid, rep, t, "sched", th->next_phase);
+    }
+    if (!same_diag (th->diag, ref[t]->diag)) {
+      diffs++;
+      printf ("D %ld %d %d ", sc.sid, rep, t);
+      print_hex (th->diag == NULL ? "" : th->diag);
     }
     for (int k = 0; k < 2; k++)
       if (!same_obs (&th->o[k], &ref[t]->o[k])) {
@@ -410,15 +460,19 @@ static void run_schedule (void) {
     printf ("C %ld\n", sc.sid);
     fflush (stdout);
     run_concurrently ();
+    check_guards (sc.sid, "concurrent");
     runs += sc.n;
     for (int t = 0; t < sc.n; t++) ref[t] = reference (sc.th[t].wid, sc.th[t].level);
+    check_guards (sc.sid, "alone");
     diffs += compare_rep (0, ref);
   } else {
     for (int t = 0; t < sc.n; t++) ref[t] = reference (sc.th[t].wid, sc.th[t].level);
+    check_guards (sc.sid, "alone");
     printf ("C %ld\n", sc.sid); /* references exist: the concurrent part begins */
     fflush (stdout);
     for (int rep = 0; rep < sc.reps; rep++) {
       run_concurrently ();
+      check_guards (sc.sid, "concurrent");
       runs += sc.n;
       diffs += compare_rep (rep, ref);
       if (diffs > 20) break;
@@ -470,6 +524,17 @@ int main (int argc, char **argv) {
       wl[wid].buf = malloc (n + 1);
       wl[wid].buflen = n;
       for (size_t i = 0; i < n; i++) wl[wid].buf[i] = (unsigned char) (hexval (hex[2 * i]) * 16 + hexval (hex[2 * i + 1]));
+    } else if (line[0] == 'V') { /* V <label> <link-time address, hex> <size> */
+      struct guard *g = &guards[nguards];
+      unsigned long long a;
+      size_t sz;
+      if (nguards >= MAXGUARD || sscanf (line + 2, "%95s %llx %zu", g->label, &a, &sz) != 3 || sz == 0) { printf ("X bad V line\n"); return 2; }
+      if (nguards == 0) dl_iterate_phdr (phdr_cb, NULL);
+      g->addr = (unsigned char *) (load_bias + (uintptr_t) a);
+      g->size = sz;
+      g->snap = malloc (sz);
+      memcpy (g->snap, g->addr, sz);
+      nguards++;
     } else if (line[0] == 'H') {
       char *p = strtok (line + 1, " \n");
       for (int i = 0; i < NPHASES; i++, p = strtok (NULL, " \n"))
